@@ -191,6 +191,20 @@ CHECKS = {
          "is not part of the statement; the model's acceptance is reported for information only.",
     technique="TLA+ spec + TLC; TLC-enumerated abstract inputs concretised and run through the real parser/printer/serializers; TLC trace validation",
     ref="6/C19"),
+ "C01": dict(
+    category="model_checking",
+    text="Serial.tla defines abstract values (15 leaf kinds, 6 container kinds, depth 2) and, per serializer, the fixed type mapping Map (the same "
+         "for arguments and results), and TLC checks over the complete space that Map is idempotent, lossless on the core and contains the "
+         "mappings the statement names; Gen_Serial.tla prints the 2325 abstract values; each is concretised with seeded witnesses (integers "
+         "around and far beyond 64 bits, non-finite floats, unicode of all planes, bytes, payloads around the compression threshold) and sent "
+         "through dumpsCall/loadsCall vs dumps/loads of each serializer, and (a sample) through a real Proxy/Daemon call over the in-memory "
+         "transport as positional, keyword and nested argument, result, batch result and streamed item with compression on and off; TLC "
+         "validates per case: shape of what arrived = Map(sent) at every position, arguments and results equal, second trip changes nothing, "
+         "core values exact (Trace_Serial.tla).",
+    note="Trusted: witness tables and the Python shape/equality projection; the parts of the Map table the statement does not name were taken "
+         "from the result path of the code and act as a regression oracle; TLC. Exhaustive over abstract structure, sampled over leaves.",
+    technique="TLA+ spec + TLC; TLC-enumerated abstract values concretised and run through the real serializers and call path; TLC trace validation",
+    ref="6/C01"),
 }
 NOT_YET = {}
 ALL = ["C%02d" % i for i in range(1, 21)]
